@@ -386,5 +386,11 @@ func runC02(e *Env) {
 		e.R.Trace(1)
 	})
 	e.R.AddPart(ev.Part{Name: "cli-histories", Enumerated: "real binary: R[1/3] X C[1] for each timed shape X; all pairs over the 12-shape sub-alphabet followed by C[1] on 1 and 3 tracks", Executions: int64(len(cliCases)), Exhaustive: true})
+	runLong(e, 16, func(c *playCase) {
+		c02Eval(e, m, c, true)
+		c3 := *c
+		c3.Cfg.Tracks = 3
+		c02Eval(e, m, &c3, true)
+	})
 	c02Accounting(e)
 }
